@@ -7,6 +7,7 @@ import (
 	"github.com/relex/gotils/logger"
 	"github.com/relex/slog-agent/defs"
 	"github.com/relex/slog-agent/util"
+	"github.com/relex/slog-agent/util/vhook"
 )
 
 // LogAllocator allocates empty log records and backing buffers
@@ -76,6 +77,7 @@ func (alloc *LogAllocator) Release(record *LogRecord) {
 
 func (alloc *LogAllocator) recycleRecord(record *LogRecord) {
 	if record._backbuf != nil {
+		vhook.Poison(*record._backbuf)
 		alloc.backbufPools.Put(record._backbuf)
 		record._backbuf = nil
 	}
